@@ -3,7 +3,21 @@
 Proof obligations: Props/C17.v (theorems over all histories, documents, split points).
 Tie to the code: differential correspondence of the model's convert_dict (Ser/Versioned.v,
 evaluated inside Coq by vm_compute) against typedpy's convert_dict on generated histories.
-Violation search: the statement's clauses evaluated on the implementation's observed behaviour."""
+Violation search: the statement's clauses evaluated on the implementation's observed behaviour.
+
+Streams: convert_dict (corpus + lattice + random histories; clauses of the first sentence, incl. "the user
+functions of exactly the pending mappings run, once each, in order" through tracer FunctionCalls);
+versioned-class (every latest key an Anything field, default options); versioned-deser / -lattice
+(harness/c17deser.py: subset-of-keys classes x 9 entry points x keep_undefined x direct_trusted_mapping x
+camel_case_convert, old document vs its conversion, 8 ways of building a new instance); deser-state
+(model of deserialize_structure_internal, Ser/VersionedDeser.v at the tables generated from the source this run,
+against the observed public state of the instance, inside Coq).
+
+False alarms met while strengthening (model/harness repaired, check not loosened):
+  * a mapping that moves a float under "version" (outside the theorems' hypotheses, but inside the correspondence
+    domain): Python computes 0.5 + 1, the model raised TypeError -> bump_version now adds exactly on floats;
+  * a document whose "version" is 2**40: `skipn (Z.to_nat ...)` ran coqc out of memory (shard "failed to evaluate")
+    -> py_slice_from returns [] when the index is beyond the list; the generator no longer invents a "version"."""
 import copy
 import random
 
